@@ -401,6 +401,15 @@ Json gen(uint64_t seed, const std::string &tier)
                         o["abig"] = (unsigned)(g.chance(1, 6) ? 1 + g.below(4) : 0);
                         o["a"] = (long long)g.below(g.chance(1, 8) ? 3 * m : m);
                         o["n"] = (long long)(1 + g.below(g.chance(1, 2) ? 4 : 12));
+                        if (m >= 10000) {
+                            // the randomised square-root path: square roots of squares
+                            if (g.chance(1, 2))
+                                o["n"] = 2;
+                            if (g.chance(1, 2)) {
+                                u64 t = 1 + g.below(m - 1);
+                                o["a"] = (long long)mulmod(t, t, m);
+                            }
+                        }
                         o["r"] = (long long)g.range(-3, 5);
                     }
                     Json lists = Json::array();
@@ -433,6 +442,16 @@ Json gen(uint64_t seed, const std::string &tier)
                             }
                         }
                         force.push(fz);
+                    }
+                    // a modulus that takes the randomised square-root path
+                    // (prime = 1 mod 8 above 10000, or twice that): the first
+                    // draw of one seed list is forced to a boundary value
+                    if (o.has("m") && o.geti("m") >= 10000 && force.size() > 0 && g.chance(2, 3)) {
+                        Json fz = Json::array();
+                        fz.push("at");
+                        fz.push(0);
+                        fz.push((unsigned)g.below(3)); // 0, 1 or n-1
+                        force.a[force.size() - 1] = fz;
                     }
                     o["force"] = force;
                     call_idx.push_back(ops.size());
